@@ -191,8 +191,8 @@ def c18(tier, seed):
 
 def c19(tier, seed):
     steps = [
-        Step("fam_atomdiff", "fib-asan", 150000, 6000000),
-        Step("fam_atomdiff", "thr-asan", 100000, 4000000),
+        Step("fam_atomdiff", "fib-asan", 150000, 3000000),
+        Step("fam_atomdiff", "thr-asan", 100000, 1000000),
     ]
     rule = ("cases = (cell, index); a seq/* case applies 30 random operations (operands drawn from boundaries and random "
             "values, random memory orders) to yaclib_std::atomic<T> and std::atomic<T> in lock-step and compares return "
